@@ -49,23 +49,31 @@ def main(only=None):
             continue
         prop = sid[:3]
         r = {"property": prop}
+        prev = out.get(sid)
+        fast = os.environ.get("SEED_FAST") and prev and prev.get("confirmed")
+        if fast:
+            # confirmed in an earlier pass on this tree (patch applies, demo distinguishes,
+            # test suite passes): only the checks are re-run
+            r = {k: prev[k] for k in ("property", "demo_without", "applies", "demo_with", "demo_tail", "tests_missing", "confirmed") if k in prev}
         sh(f"git -C /repo worktree remove --force {WT}")
         shutil.rmtree(WT, ignore_errors=True)
-        sh(f"git -C /repo worktree add --detach {WT} HEAD")
-        shutil.copy(os.path.join(d, "demo.py"), os.path.join(WT, "_demo.py"))
-        rc0, o0 = sh("/venv/bin/python _demo.py", cwd=WT, timeout=600)
-        r["demo_without"] = rc0
-        rca, oa = sh(f"git apply {d}/patch.diff", cwd=WT)
-        r["applies"] = rca == 0
-        if rca == 0:
-            rc1, o1 = sh("/venv/bin/python _demo.py", cwd=WT, timeout=600)
-            r["demo_with"] = rc1
-            r["demo_tail"] = o1.strip().splitlines()[-1][:300] if o1.strip() else ""
-            os.remove(os.path.join(WT, "_demo.py"))
-            r["tests_missing"] = tests_ok(WT)
-        sh(f"git -C /repo worktree remove --force {WT}")
-        shutil.rmtree(WT, ignore_errors=True)
-        r["confirmed"] = bool(r.get("applies") and r["demo_without"] == 0 and r.get("demo_with", 0) != 0 and not r.get("tests_missing"))
+        if not fast:
+          sh(f"git -C /repo worktree add --detach {WT} HEAD")
+          shutil.copy(os.path.join(d, "demo.py"), os.path.join(WT, "_demo.py"))
+          rc0, o0 = sh("/venv/bin/python _demo.py", cwd=WT, timeout=600)
+          r["demo_without"] = rc0
+          rca, oa = sh(f"git apply {d}/patch.diff", cwd=WT)
+          r["applies"] = rca == 0
+          if rca == 0:
+              rc1, o1 = sh("/venv/bin/python _demo.py", cwd=WT, timeout=600)
+              r["demo_with"] = rc1
+              r["demo_tail"] = o1.strip().splitlines()[-1][:300] if o1.strip() else ""
+              os.remove(os.path.join(WT, "_demo.py"))
+              r["tests_missing"] = tests_ok(WT)
+          sh(f"git -C /repo worktree remove --force {WT}")
+          shutil.rmtree(WT, ignore_errors=True)
+        if not fast:
+          r["confirmed"] = bool(r.get("applies") and r["demo_without"] == 0 and r.get("demo_with", 0) != 0 and not r.get("tests_missing"))
         r["checks"] = {}
         if r.get("applies"):
             # the checks run against a scratch worktree with the patch applied (PYTHONPATH/VX_REPO), never against /repo
